@@ -19,7 +19,7 @@ LEVEL_NOTE = ("Enumeration is over the model of a crash stated in the property (
 DESIGN_REF = "3/C18"
 RULE = ("a case = history of 2..8 (thorough 12) operations save/load/remove/gc/tick/plant-garbage over up to 4 session ids, payloads 0..8 KiB "
         "(rarely ~68 KiB) that share prefixes, deadlines past/now/future, 3 locking configurations; grid = previous length x new length over "
-        "{absent,0,1,2,15,16,17,100,495..497,511..513,1007..1009,1600} x {same content, last byte differs, unrelated} x {future, past}. "
+        "{absent,0,1,2,15,16,17,100,495..497,511..513,1007..1009,1600} x {same content, last byte differs, unrelated} with a future deadline + same content with a past deadline. "
         "Evaluation = one load()/gc verdict. Non-trivial: a crash image that differs from both the complete old and the complete new file "
         "(genuinely torn), or an inconsistent planted garbage file; distinct = hash of the image bytes (+ operation index).")
 
@@ -33,8 +33,9 @@ def units(bins, tier, seed):
     us = []
     gs = 6
     for i in range(gs):
-        us.append(Unit("c18_session_crash.grid%d" % i, [b], env={"C18_MODE": "grid", "C18_STRIDE": gs, "C18_OFFSET": i, "C18_REGRESS_DIR": os.path.join(verif.VERIF, "replays", ID)}, group="grid"))
-    n = 50 if tier == "quick" else 500
+        us.append(Unit("c18_session_crash.grid%d" % i, [b], env={"C18_MODE": "grid", "C18_STRIDE": gs, "C18_OFFSET": i, "C18_REGRESS_DIR": os.path.join(verif.VERIF, "replays", ID)}, group="grid",
+                       timeout=7200))
+    n = 40 if tier == "quick" else 500
     nr = 10
     for i in range(nr):
         us.append(Unit("c18_session_crash.rc%d" % i, [b], env={"C18_MODE": "rc", "RC_PARAMS": rc_params(seed * 1000 + i, n, 100)}, group="random",
@@ -44,7 +45,7 @@ def units(bins, tier, seed):
 
 def run(tier, seed):
     return verif.standard(ID, tier, seed, specs(), units, RULE, level=LEVEL,
-                          floor={"grid": 1200000, "random": 400000 if tier == "quick" else 5000000},
+                          floor={"grid": 800000, "random": 300000 if tier == "quick" else 5000000},
                           assumptions=["a crash leaves each 512-byte sector as it was after some write() call of the save, the 16-byte header being atomic",
                                        "file length metadata is one of the lengths the file had during the save; bytes never written read as zero or filler",
                                        "the harness's record parser / CRC-32 are correct (used only to judge planted garbage files)",
